@@ -541,6 +541,12 @@ func dynamicHalf(e *common.Enum, g *cgraph.Graph) {
 		if e.Thorough() && deepEligible(f) {
 			for _, d := range []string{"10000", "100000", "max"} {
 				d := d
+				if d == "max" && strings.Contains(f.W.Pre+f.W.Post, "\n") {
+					// one comment per line: the pinned tokenizer's position conversion scans all
+					// previous lines for every comment (property C20), 2M lines would take hours
+					e.Cap("runs of line comments above 100000 lines are not run (position conversion is quadratic in the number of lines, see C20)")
+					continue
+				}
 				e.Do("dyn/"+f.Key+"/"+d, func(c *common.Ctx) {
 					runDeep(c, f, d, lexRec)
 				})
